@@ -1,6 +1,6 @@
 (* C01 — shape of the generated cases and the two executable verdicts. No proofs. *)
 From VLib Require Import CaseLib.
-From C01 Require Import Model ModelMulti.
+From C01 Require Import Model ModelMulti ModelIntr.
 Open Scope nat_scope.
 
 (* ---------- decoders of a case: zstd is replaced by a table built from the case's bulks ---------- *)
@@ -37,23 +37,27 @@ Inductive ihop :=
 | ICrashIn (i : nat) (k t kd km : nat)
 | IPower
 | IRestart
-| IRestartCrash.
+| IRestartCrash
+| IStartIntr (polls : nat).   (* (kill and) start the store with a context that reports Done from its
+                                 (polls+1)-th poll on (driver: open-interrupted); the real outcome is the
+                                 next observation: IIntr (Load returned the cancellation) or IUp/IDied *)
 
 Definition dummy_bulk := Bulk [] [] 0 [] 0.
 (* the model's atomic step is the locked unit: concurrent bulks are a sequence of HBulk steps *)
-Definition hops_of (bs : list bulk) (o : ihop) : list hop :=
+Definition hops_of (bs : list bulk) (o : ihop) : list xhop :=
   match o with
-  | IBulk i => [HBulk (nth i bs dummy_bulk)]
-  | IConc is => map (fun i => HBulk (nth i bs dummy_bulk)) is
-  | IFault i fm cut _ => [HFault (nth i bs dummy_bulk) fm cut]
-  | IFaultCrash i a c => [HFaultCrash (nth i bs dummy_bulk) a c]
+  | IBulk i => [XOp (HBulk (nth i bs dummy_bulk))]
+  | IConc is => map (fun i => XOp (HBulk (nth i bs dummy_bulk))) is
+  | IFault i fm cut _ => [XOp (HFault (nth i bs dummy_bulk) fm cut)]
+  | IFaultCrash i a c => [XOp (HFaultCrash (nth i bs dummy_bulk) a c)]
   | IGroupBegin => []
   | IGroupEnd => []
   | IObs => []
-  | ICrashIn i k t kd km => [HCrashIn (nth i bs dummy_bulk) k t kd km]
-  | IPower => [HPower]
-  | IRestart => [HRestart]
-  | IRestartCrash => [HRestartCrash]
+  | ICrashIn i k t kd km => [XOp (HCrashIn (nth i bs dummy_bulk) k t kd km)]
+  | IPower => [XOp HPower]
+  | IRestart => [XOp HRestart]
+  | IRestartCrash => [XOp HRestartCrash]
+  | IStartIntr k => [XStartIntr k]
   end.
 
 (* projected file operation, as read from the strace log *)
@@ -92,8 +96,12 @@ Definition fetched_eqb (a b : fetched) : bool :=
 (* what the driver saw after one start of the real store *)
 Inductive iobs :=
 | IDied                                                     (* the store did not come up *)
-| IUp (fetches : list (N * fetched)) (searches : list (N * list N)).
+| IUp (fetches : list (N * fetched)) (searches : list (N * list N))
                          (* per document ID: fetch result; per token: IDs found, sorted, distinct *)
+| IIntr (same : bool) (dlen mlen : nat).
+                         (* the interrupted start-up returned context.Canceled; same = every file of the data
+                            directory is byte-identical to what it was before and no file was created or
+                            removed; dlen / mlen = lengths of .docs / .meta afterwards *)
 
 (* ---------- multi-fraction histories (ModelMulti.v) as written by the driver ---------- *)
 
@@ -107,9 +115,10 @@ Inductive imhop :=
 | IMSealCrash (j : nat) (torn pl : bool)        (* j operations of the seal completed (all writes of one temp
                                                    file = one operation), the next one torn, power loss *)
 | IMRestart
-| IMRestartCrash (c : list nat) (torn pl : bool).
+| IMRestartCrash (c : list nat) (torn pl : bool)
                                                 (* the start-up died: c[i] = completed operations on the files of
                                                    fraction i, directory fsyncs not counted *)
+| IMStartIntr (polls : nat).                    (* start-up under a context cancelled after `polls` polls *)
 
 (* projected file operation of the multi-fraction driver: fraction number (creation order), file *)
 Inductive mpop :=
@@ -122,9 +131,18 @@ Inductive mpop :=
 | MPUnl (i : nat) (f : fname).
 
 (* after a start: fetches, searches, and FracManager.fracs in order: (fraction, (sealed, writable)) *)
+(* the files of one fraction before and after an interrupted start-up, read from the real directory:
+   which of .meta/.docs/.sdocs/.index exist, lengths of .meta/.docs; fc_cm / fc_cd = length of the prefix of the
+   .meta file (before) that consists of complete blocks, and the sum of their Ext1 (what a replay keeps);
+   fc_prefix = every file that still exists holds a prefix of its old bytes (.sdocs/.index: the same bytes) *)
+Record fchg := FChg { fc_ord : nat;
+                      fc_b : list bool; fc_bm : nat; fc_bd : nat; fc_cm : nat; fc_cd : nat;
+                      fc_a : list bool; fc_am : nat; fc_ad : nat; fc_prefix : bool }.
+
 Inductive imobs :=
 | IMDied
-| IMUp (fetches : list (N * fetched)) (searches : list (N * list N)) (fracs : list (nat * (bool * bool))).
+| IMUp (fetches : list (N * fetched)) (searches : list (N * list N)) (fracs : list (nat * (bool * bool)))
+| IMIntr (files : list fchg).    (* the interrupted start-up returned context.Canceled *)
 
 (* exts: for every child process of the run, (Ext1, Ext2) of the meta blocks found in the real
    .meta file when the child ended, in file order *)
@@ -142,7 +160,7 @@ Definition canon (l : list N) : list N := fold_right ins [] l.
 
 (* ---------- model run with one observation per start ---------- *)
 
-Inductive mobs := MDied | MUp (d : disk) (p : proc).
+Inductive mobs := MDied | MUp (d : disk) (p : proc) | MIntr (before after : disk).
 
 Section Run.
   Variable bs : list bulk.
@@ -166,7 +184,7 @@ Section Run.
     match h with
     | [] => ([], Some [])
     | o :: r =>
-        match run_from dm s (hops_of bs o) with
+        match xrun_from dm s (hops_of bs o) with
         | Ok s' =>
             let ing' := match o with IGroupBegin => true | IGroupEnd => false | _ => ing end in
             let '(l, f) := run_obs ing' s' r in
@@ -177,6 +195,8 @@ Section Run.
             match o, s_proc s' with
             | IRestart, Some p => (MUp (s_disk s') p :: l, f')
             | IObs, Some p => (MUp (s_disk s') p :: l, f')
+            | IStartIntr _, Some p => (MUp (s_disk s') p :: l, f')
+            | IStartIntr _, None => (MIntr (s_disk s) (s_disk s') :: l, f')
             | _, _ => (l, f')
             end
         | _ => ([MDied], None)
@@ -189,6 +209,9 @@ Section Run.
     | MUp d p, IUp fs ss =>
         forallb (fun x => fetched_eqb (fetch dd d p (fst x)) (snd x)) fs &&
         forallb (fun x => list_eqb N.eqb (canon (search p (fst x))) (snd x)) ss
+    | MIntr b a, IIntr same dlen mlen =>
+        Bool.eqb same (bytes_eqb (docs b) (docs a) && bytes_eqb (meta b) (meta a)) &&
+        Nat.eqb dlen (length (docs a)) && Nat.eqb mlen (length (meta a))
     | _, _ => false
     end.
 End Run.
@@ -310,6 +333,15 @@ Fixpoint spec_walk (bs : list bulk) (h : list ihop) (obs : list iobs) (tr : trac
       | IUp fs ss :: obs' => obs_ok bs tr fs ss && spec_walk bs r obs' (obs_track bs tr fs ss)
       | _ => false        (* the store always comes back up *)
       end
+  | IStartIntr _ :: r =>
+      match obs with
+      (* the start-up was interrupted: it must not have changed, created or removed any file; the store is down *)
+      | IIntr same _ _ :: obs' =>
+          same && spec_walk bs r obs' (Track false (acked tr) (tried tr) (pres tr) (abs tr))
+      (* nobody saw the cancellation: an ordinary start *)
+      | IUp fs ss :: obs' => obs_ok bs tr fs ss && spec_walk bs r obs' (obs_track bs tr fs ss)
+      | _ => false        (* it must not die *)
+      end
   end.
 
 Definition chist_spec_ok (c : case) : bool :=
@@ -366,7 +398,7 @@ Fixpoint pos_of (prog : list lop) (c : nat) : nat :=
               end
   end.
 
-Inductive mmobs := MMDied | MMUp (dirs : nat -> fdir) (mp : mproc).
+Inductive mmobs := MMDied | MMUp (dirs : nat -> fdir) (mp : mproc) | MMIntr (dirs : nat -> fdir).
 
 Section MRun.
   Variable bs : list bulk.
@@ -386,28 +418,31 @@ Section MRun.
     | _ => []
     end.
 
-  Definition mhop_of (s : mst) (o : imhop) : mhop :=
+  Definition mhop_of (s : mst) (o : imhop) : mxhop :=
     match o with
-    | IMBulk i => MBulk (nth i bs dummy_bulk)
-    | IMCrashIn i k t kd km => MCrashIn (nth i bs dummy_bulk) k t kd km
-    | IMPower => MPower
-    | IMRotate => MRotate
-    | IMRotateCrash j => MRotateCrash j
-    | IMSeal => MSeal
-    | IMSealCrash j torn pl => MSealCrash j torn pl
-    | IMRestart => MRestart
-    | IMRestartCrash c torn pl => MRestartCrash (cut_of s c) torn pl
+    | IMBulk i => MXOp (MBulk (nth i bs dummy_bulk))
+    | IMCrashIn i k t kd km => MXOp (MCrashIn (nth i bs dummy_bulk) k t kd km)
+    | IMPower => MXOp MPower
+    | IMRotate => MXOp MRotate
+    | IMRotateCrash j => MXOp (MRotateCrash j)
+    | IMSeal => MXOp MSeal
+    | IMSealCrash j torn pl => MXOp (MSealCrash j torn pl)
+    | IMRestart => MXOp MRestart
+    | IMRestartCrash c torn pl => MXOp (MRestartCrash (cut_of s c) torn pl)
+    | IMStartIntr k => MXStartIntr k
     end.
 
   Fixpoint mrun_obs (s : mst) (h : list imhop) : list mmobs * option (list (nat * lop)) :=
     match h with
     | [] => ([], Some (rev (ms_ops s)))
     | o :: r =>
-        match mstep dm dd s (mhop_of s o) with
+        match mxstep dm dd s (mhop_of s o) with
         | Ok s' =>
             let '(l, f) := mrun_obs s' r in
             match o, ms_proc s' with
             | IMRestart, Some mp => (MMUp (ms_dirs s') mp :: l, f)
+            | IMStartIntr _, Some mp => (MMUp (ms_dirs s') mp :: l, f)
+            | IMStartIntr _, None => (MMIntr (ms_dirs s') :: l, f)
             | _, _ => (l, f)
             end
         | _ => ([MMDied], None)
@@ -428,6 +463,13 @@ Section MRun.
         list_eqb frac_eqb
           (map (fun x => (fst x, (is_rsealed (snd x), negb (is_rsealed (snd x)) && Nat.eqb (fst x) (mp_active mp))))
                (mp_fracs mp)) fr
+    | MMIntr dirs, IMIntr fl =>
+        (* the files the interrupted start-up left: which exist, how long .meta/.docs are *)
+        forallb (fun c =>
+          let fd := dirs (fc_ord c) in
+          list_eqb Bool.eqb (fc_a c) [has (fd_meta fd); has (fd_docs fd); has (fd_sd fd); has (fd_ix fd)] &&
+          Nat.eqb (fc_am c) (match fd_meta fd with Some x => length x | None => 0 end) &&
+          Nat.eqb (fc_ad c) (match fd_docs fd with Some x => length x | None => 0 end)) fl
     | _, _ => false
     end.
 End MRun.
@@ -451,10 +493,34 @@ Definition spec_hop (o : imhop) : list ihop :=
   | IMRotate | IMSeal => []
   | IMRestart => [IRestart]
   | IMRestartCrash _ _ _ => [IRestartCrash]
+  | IMStartIntr k => [IStartIntr k]
   end.
 
+(* what an interrupted start-up may do to the files of one fraction ("changes no file", up to what the crash
+   model allows anyway): nothing; or the clean-up every start-up performs - cut .meta/.docs back, but never
+   below the complete blocks (fc_cm / fc_cd); remove the .meta/.docs left next to a complete sealed form;
+   create a missing .docs next to a .meta; remove a fraction whose .meta holds no complete block *)
+Definition nthb (l : list bool) (i : nat) : bool := nth i l false.
+Definition fchg_ok (c : fchg) : bool :=
+  let bm := nthb (fc_b c) 0 in let bd := nthb (fc_b c) 1 in let bs := nthb (fc_b c) 2 in let bi := nthb (fc_b c) 3 in
+  let am := nthb (fc_a c) 0 in let ad := nthb (fc_a c) 1 in let as_ := nthb (fc_a c) 2 in let ai := nthb (fc_a c) 3 in
+  if list_eqb Bool.eqb (fc_b c) (fc_a c) && Nat.eqb (fc_am c) (fc_bm c) && Nat.eqb (fc_ad c) (fc_bd c) && fc_prefix c
+  then true      (* nothing changed *)
+  else if negb (am || ad || as_ || ai)
+  then (* everything is gone: only a fraction that held nothing *)
+       negb (bm || bd || bs || bi) || (Nat.eqb (fc_cm c) 0 && negb (bs && bi))
+  else
+    fc_prefix c && Bool.eqb as_ bs && Bool.eqb ai bi &&
+    (if bm then (am && (fc_cm c <=? fc_am c) && (fc_am c <=? fc_bm c)) || (negb am && bs && bi) else negb am) &&
+    (if bd then (ad && (fc_cd c <=? fc_ad c) && (fc_ad c <=? fc_bd c)) || (negb ad && bs && bi)
+     else negb ad || (bm && Nat.eqb (fc_ad c) 0)).
+
 Definition to_iobs (o : imobs) : iobs :=
-  match o with IMDied => IDied | IMUp fs ss _ => IUp fs ss end.
+  match o with
+  | IMDied => IDied
+  | IMUp fs ss _ => IUp fs ss
+  | IMIntr fl => IIntr (forallb fchg_ok fl) 0 0
+  end.
 
 Fixpoint nodupb (l : list nat) : bool :=
   match l with [] => true | x :: r => negb (memn x r) && nodupb r end.
@@ -467,7 +533,7 @@ Definition fracs_ok (fr : list (nat * (bool * bool))) : bool :=
 
 Definition cmulti_spec_ok (bs : list bulk) (h : list imhop) (obs : list imobs) : bool :=
   spec_walk bs (flat_map spec_hop h) (map to_iobs obs) (Track false [] [] [] []) &&
-  forallb (fun o => match o with IMUp _ _ fr => fracs_ok fr | IMDied => true end) obs.
+  forallb (fun o => match o with IMUp _ _ fr => fracs_ok fr | _ => true end) obs.
 
 Definition case_agrees (c : case) : bool :=
   match c with
